@@ -114,6 +114,19 @@ CHECKS = {
              "pickled contents including trashed entries' validity.",
         design="5/C19",
         note="Seeded runs; dump points are the dumping events of those runs (3-8 per plan); quick: 4 plans, thorough: 9."),
+    "C20": dict(
+        technique="TLA+ model checking (TLC) of MultiProc.tla (all interleavings of mediator and workers, safety + liveness) + "
+                  "controlled-schedule runs of the real multi-process mediator compared with the single-process run by Lockstep.tla",
+        text="MultiProc.tla transcribes MultiProcessMediator.run, run_in_process and the or-event; TLC explores every "
+             "interleaving for 3 handlers, 2-4 cores and 2-3 legs and checks that no MediatorError/assert site is reachable, "
+             "that a committed out-state (including pre-computed ones) was computed from the current in-state, that pipes are "
+             "clean when a handler is started, the semaphore bound, deadlock freedom and completion under weak fairness. Real "
+             "runs with per-handler random streams are executed under sampled schedules (a shim around connection.wait that "
+             "reorders/subsets ready pipes, per-worker answer delays, 2-16 cores) and must equal the single-process run record "
+             "by record on float keys; a hang, an exception or a leftover worker process is a violation.",
+        design="5/C20",
+        note="The model is bound to the code by outcome (equality, termination, no leftover process) under sampled schedules, "
+             "not by step-wise validation of worker traces. Configurations whose out-state computation draws no random numbers."),
     "C05": dict(
         technique="TLA+ model checking (TLC) of Lifting.tla + spec->code replay of every model evaluation into the real lifting classes",
         text="Lifting.tla transcribes Lifting.insert/reset and the three get_active_identifier on integer rates; TLC evaluates "
